@@ -739,7 +739,42 @@ func classifyWorkerDeath(prop, tier, stderr string, err error) (*RunResult, stri
 		}
 		return &RunResult{Prop: prop, Seed: seed, Tier: tier, Tape: TapeData{Seed: seed}, Viol: []Violation{{Sig: sig, Detail: cut(stderr[i:], 3000)}}}, ""
 	}
+	if cr := classifyPanic(prop, tier, seed, stderr); cr != nil {
+		return cr, ""
+	}
 	return nil, fmt.Sprintf("worker failed (seed %d): %v\n%s", seed, err, tail)
+}
+
+// classifyPanic recognises a process death by a panic nobody recovered (a goroutine the simulator does not manage, e.g. one
+// of net/http's own, running pandora's code): it is a verdict when the first frame of the panicking goroutine that is neither
+// the runtime's nor the standard library's belongs to pandora, and trouble when it belongs to the harness.
+func classifyPanic(prop, tier string, seed uint64, stderr string) *RunResult {
+	i := strings.Index(stderr, "\npanic: ")
+	if i < 0 {
+		return nil
+	}
+	rest := stderr[i+1:]
+	g := strings.Index(rest, "\ngoroutine ")
+	if g < 0 || !strings.Contains(firstLine(rest[g+1:]), "[running") {
+		return nil
+	}
+	block := rest[g+1:]
+	if e := strings.Index(block, "\n\n"); e >= 0 {
+		block = block[:e]
+	}
+	for _, ln := range strings.Split(block, "\n")[1:] {
+		if strings.HasPrefix(ln, "\t") || strings.HasPrefix(ln, "created by ") {
+			continue
+		}
+		if strings.HasPrefix(ln, "verifsim/") {
+			return nil
+		}
+		if fr := pandoraFrame.FindStringSubmatch(ln); fr != nil && strings.HasPrefix(ln, "github.com/yandex/pandora/") {
+			sig := prop + "/FATAL/unrecovered " + firstLine(rest) + "/" + fr[1] + "." + fr[2]
+			return &RunResult{Prop: prop, Seed: seed, Tier: tier, Tape: TapeData{Seed: seed}, Viol: []Violation{{Sig: sig, Detail: cut(rest, 3000)}}}
+		}
+	}
+	return nil
 }
 
 var pandoraFrame = regexp.MustCompile(`github\.com/yandex/pandora/([^\s(]+)\.([A-Za-z0-9_.()*]+)\(`)
@@ -820,7 +855,7 @@ func confirm(b *build, path, sig string) (bool, string) {
 		}
 		return false, fmt.Sprintf("replay gave %v", got)
 	}
-	if err != nil && strings.Contains(sig, "/FATAL/") && strings.Contains(eb.String(), "fatal error: ") {
+	if err != nil && strings.Contains(sig, "/FATAL/") && (strings.Contains(eb.String(), "fatal error: ") || strings.Contains(eb.String(), "\npanic: ")) {
 		return true, ""
 	}
 	if strings.Contains(sig, "/DATA-RACE/") {
